@@ -2,7 +2,15 @@
    dist_store.py  LinearBarrier.arrive / depart / report_error  and
    snapshot.py    PendingSnapshot._complete_snapshot
    as a transition system: one step = one store operation, one I/O completion or one metadata write of
-   one background thread (rank) of one snapshot instance.  Timeouts are not modelled (wait blocks).
+   one background thread (rank) of one snapshot instance.
+
+   Timeouts ARE modelled: a rank blocked in (or about to enter) a store.wait - the leader waiting for the peers'
+   keys in arrive, a peer waiting for the leader's key in depart - may at any time take a TIMEOUT step, also
+   spuriously (while the awaited keys are present or about to be set): store.wait raises, the exception leaves
+   arrive/depart, is caught by `except Exception` in _complete_snapshot (pc PHandler), whose next step is
+   barrier.report_error (store.set of this rank's key to an error text); exc_info is recorded and the rank ends
+   in PRaised.  Ranks that are ABSENT from the protocol (they raised inside async_take itself, before their
+   background thread and barrier existed) never take a step and never set a key (pc PAbsent).
    Executable definitions only. *)
 From TS Require Import model.Base.
 
@@ -33,12 +41,19 @@ Definition st_has (s : store) (k : key) : bool :=
    extracted skeleton is this one) *)
 Inductive BarrierTarget := KPeers | KOwn | KLeader.
 Inductive BarrierOnErr := RaiseOnly | ReportThenRaise.
+(* second argument of store.wait: the `timeout` parameter of arrive/depart, or none (the store's own default) *)
+Inductive BarrierWaitTimeout := WTimeoutArg | WStoreDefault.
 Inductive BarrierOp :=
-| BWait (t : BarrierTarget)                        (* store.wait(keys of t) *)
+| BWait (t : BarrierTarget) (w : BarrierWaitTimeout)  (* store.wait(keys of t, timeout) - raises when the timeout expires *)
 | BGetEach (t : BarrierTarget) (e : BarrierOnErr)  (* for key in keys of t: err = store.get(key); if len(err) != 0: [report_error;] raise *)
 | BGet (t : BarrierTarget) (e : BarrierOnErr)      (* err = store.get(key of t); if len(err) != 0: [report_error;] raise *)
 | BSet (t : BarrierTarget) (v : value).            (* store.set(key of t, "" | error text) *)
-Inductive BarrierStmt := CSyncComplete | CArrive | CIfRank0WriteMeta | CDepart | CReportError.
+Inductive BarrierStmt := CSyncComplete | CArrive | CIfRank0WriteMeta | CDepart | CReportError
+                       | CRecordExcInfo.          (* self.exc_info = sys.exc_info() *)
+(* how _complete_snapshot calls arrive/depart: timeout=self.DEFAULT_BARRIER_TIMEOUT (a timedelta class
+   attribute of PendingSnapshot), or anything else *)
+Inductive BarrierTimeoutArg := TDefaultBarrierTimeout | TOther.
+Inductive BarrierCatch := CatchException | CatchOther.
 
 Record BarrierSkeleton := {
   sk_arrive_leader : list BarrierOp;
@@ -47,57 +62,98 @@ Record BarrierSkeleton := {
   sk_depart_peer : list BarrierOp;
   sk_report_error : list BarrierOp;
   sk_try : list BarrierStmt;
-  sk_except : list BarrierStmt;
+  sk_catch : BarrierCatch;                 (* `except Exception` around the whole try body *)
+  sk_except : list BarrierStmt;            (* the handler, in order *)
+  sk_arrive_timeout : BarrierTimeoutArg;   (* barrier.arrive(timeout=...) *)
+  sk_depart_timeout : BarrierTimeoutArg;   (* barrier.depart(timeout=...) *)
   sk_leader_rank : Z }.
 
 Definition model_skeleton : BarrierSkeleton := {|
-  sk_arrive_leader := [BWait KPeers; BGetEach KPeers ReportThenRaise];
+  sk_arrive_leader := [BWait KPeers WTimeoutArg; BGetEach KPeers ReportThenRaise];
   sk_arrive_peer := [BSet KOwn VOk];
   sk_depart_leader := [BSet KLeader VOk];
-  sk_depart_peer := [BWait KLeader; BGet KLeader RaiseOnly];
+  sk_depart_peer := [BWait KLeader WTimeoutArg; BGet KLeader RaiseOnly];
   sk_report_error := [BSet KOwn VErr];
   sk_try := [CSyncComplete; CArrive; CIfRank0WriteMeta; CDepart];
-  sk_except := [CReportError];
+  sk_catch := CatchException;
+  sk_except := [CReportError; CRecordExcInfo];
+  sk_arrive_timeout := TDefaultBarrierTimeout;
+  sk_depart_timeout := TDefaultBarrierTimeout;
   sk_leader_rank := 0 |}.
+
+(* the store.wait sites of a skeleton: who can be blocked where (and therefore: who can time out where) *)
+Inductive BarrierRole := RLeader | RPeer.
+Inductive BarrierPhase := PhArrive | PhDepart.
+Definition WaitSite := (BarrierRole * BarrierPhase * BarrierTarget * BarrierWaitTimeout)%type.
+
+Definition waits_of (ro : BarrierRole) (ph : BarrierPhase) (ops : list BarrierOp) : list WaitSite :=
+  flat_map (fun o => match o with BWait t w => [(ro, ph, t, w)] | _ => [] end) ops.
+
+Definition wait_sites (sk : BarrierSkeleton) : list WaitSite :=
+  waits_of RLeader PhArrive (sk_arrive_leader sk) ++ waits_of RPeer PhArrive (sk_arrive_peer sk) ++
+  waits_of RLeader PhDepart (sk_depart_leader sk) ++ waits_of RPeer PhDepart (sk_depart_peer sk).
+
+(* what happens to an exception raised by a store.wait of arrive/depart, as far as the skeleton says: both calls
+   are statements of the try body, the handler catches Exception, reports first and records exc_info *)
+Definition timeout_is_reported (sk : BarrierSkeleton) : bool :=
+  existsb (fun s => match s with CArrive => true | _ => false end) (sk_try sk) &&
+  existsb (fun s => match s with CDepart => true | _ => false end) (sk_try sk) &&
+  match sk_catch sk with CatchException => true | CatchOther => false end &&
+  match sk_except sk with [CReportError; CRecordExcInfo] => true | _ => false end &&
+  match sk_report_error sk with [BSet KOwn VErr] => true | _ => false end &&
+  match sk_arrive_timeout sk, sk_depart_timeout sk with TDefaultBarrierTimeout, TDefaultBarrierTimeout => true | _, _ => false end.
 
 (* ------------------------------------------------------------------ one snapshot instance *)
 (* program counter of one rank's background thread: the NEXT thing it does *)
 Inductive pc :=
 | PIo              (* pending_io_work.sync_complete(event_loop) *)
-| PArrive          (* leader: store.wait(peer keys)            peer: store.set(own key, "") *)
+| PArrive          (* leader: store.wait(peer keys, timeout)   peer: store.set(own key, "") *)
 | PGet (k : nat)   (* leader, inside arrive: store.get(key of peer k) *)
 | PErrReport       (* leader, inside arrive after reading an error: self.report_error(...) then raise *)
 | PMeta            (* leader: Snapshot._write_snapshot_metadata *)
-| PDepart          (* leader: store.set(leader key, "")        peer: store.wait([leader key]) *)
+| PDepart          (* leader: store.set(leader key, "")        peer: store.wait([leader key], timeout) *)
 | PDepartGet       (* peer: store.get(leader key) *)
 | PHandler         (* except handler: barrier.report_error(str(e)) *)
 | PDone            (* _complete_snapshot returned with exc_info = None: wait() succeeds *)
-| PRaised.         (* _complete_snapshot returned with exc_info set:    wait() raises *)
+| PRaised          (* _complete_snapshot returned with exc_info set:    wait() raises *)
+| PAbsent.         (* this rank raised inside async_take: no background thread, no barrier, no PendingSnapshot *)
 
 Record inst := {
   i_prefix : Z;               (* id of the barrier prefix string f"torchsnapshot_{path}_{barrier_id}" *)
   i_W : nat;                  (* world size *)
   i_iofail : list nat;        (* fault plan: ranks whose sync_complete raises *)
   i_metafail : bool;          (* fault plan: the leader's metadata write raises *)
+  i_absent : list nat;        (* fault plan: ranks that never enter the protocol *)
   i_pcs : nat -> pc;          (* per-rank program counter *)
   i_meta : bool;              (* .snapshot_metadata written *)
-  i_iodone : nat -> bool }.   (* per rank: sync_complete returned normally *)
+  i_iodone : nat -> bool;     (* per rank: sync_complete returned normally *)
+  i_tmo : nat -> bool }.      (* per rank (history variable): one of its store.wait calls timed out *)
 
 Definition iofails (x : inst) (r : nat) : bool := existsb (Nat.eqb r) (i_iofail x).
+Definition absent (x : inst) (r : nat) : bool := existsb (Nat.eqb r) (i_absent x).
 
 Definition set_pc (x : inst) (r : nat) (p : pc) : inst :=
   {| i_prefix := i_prefix x; i_W := i_W x; i_iofail := i_iofail x; i_metafail := i_metafail x;
+     i_absent := i_absent x;
      i_pcs := fun r' => if Nat.eqb r' r then p else i_pcs x r';
-     i_meta := i_meta x; i_iodone := i_iodone x |}.
+     i_meta := i_meta x; i_iodone := i_iodone x; i_tmo := i_tmo x |}.
 
 Definition set_iodone (x : inst) (r : nat) : inst :=
   {| i_prefix := i_prefix x; i_W := i_W x; i_iofail := i_iofail x; i_metafail := i_metafail x;
+     i_absent := i_absent x;
      i_pcs := i_pcs x; i_meta := i_meta x;
-     i_iodone := fun r' => if Nat.eqb r' r then true else i_iodone x r' |}.
+     i_iodone := fun r' => if Nat.eqb r' r then true else i_iodone x r'; i_tmo := i_tmo x |}.
 
 Definition set_meta (x : inst) : inst :=
   {| i_prefix := i_prefix x; i_W := i_W x; i_iofail := i_iofail x; i_metafail := i_metafail x;
-     i_pcs := i_pcs x; i_meta := true; i_iodone := i_iodone x |}.
+     i_absent := i_absent x;
+     i_pcs := i_pcs x; i_meta := true; i_iodone := i_iodone x; i_tmo := i_tmo x |}.
+
+Definition set_tmo (x : inst) (r : nat) : inst :=
+  {| i_prefix := i_prefix x; i_W := i_W x; i_iofail := i_iofail x; i_metafail := i_metafail x;
+     i_absent := i_absent x;
+     i_pcs := i_pcs x; i_meta := i_meta x; i_iodone := i_iodone x;
+     i_tmo := fun r' => if Nat.eqb r' r then true else i_tmo x r' |}.
 
 Definition kz (x : inst) (r : nat) : key := (i_prefix x, Z.of_nat r).
 Definition peers (W : nat) : list nat := seq 1 (W - 1).
@@ -110,10 +166,11 @@ Inductive op :=
 | OSet (p : Z) (r : nat) (v : value)
 | OWait (p : Z) (rs : list nat)
 | OGet (p : Z) (r : nat) (v : value)
-| OMeta (ok : bool).
+| OMeta (ok : bool)
+| OTimeout (p : Z) (rs : list nat).    (* store.wait(keys of rs under prefix p, timeout) raised *)
 
-(* one step of rank r of instance x against the store; None = not enabled (blocked wait, finished rank,
-   rank outside the world) *)
+(* one NORMAL step of rank r of instance x against the store; None = not enabled (blocked wait, finished rank,
+   absent rank, rank outside the world) *)
 Definition istep (st : store) (x : inst) (r : nat) : option (store * inst * op) :=
   if negb (r <? i_W x)%nat then None else
   let p := i_prefix x in
@@ -147,8 +204,33 @@ Definition istep (st : store) (x : inst) (r : nat) : option (store * inst * op) 
       | Some VErr => Some (st, set_pc x r PHandler, OGet p 0 VErr)
       end
   | PHandler => Some (st_set st (kz x r) VErr, set_pc x r PRaised, OSet p r VErr)
-  | PDone | PRaised => None
+  | PDone | PRaised | PAbsent => None
   end.
+
+(* the TIMEOUT step of rank r: enabled exactly when r's next operation is a store.wait (whether or not the awaited
+   keys are present): the wait raises, control is in the except handler of _complete_snapshot, whose next step
+   (istep at PHandler) is report_error = store.set(own key, error text), after which the rank is PRaised *)
+Definition itimeout (st : store) (x : inst) (r : nat) : option (store * inst * op) :=
+  if negb (r <? i_W x)%nat then None else
+  let p := i_prefix x in
+  match i_pcs x r with
+  | PArrive => if Nat.eqb r 0 then Some (st, set_tmo (set_pc x r PHandler) r, OTimeout p (peers (i_W x))) else None
+  | PDepart => if Nat.eqb r 0 then None else Some (st, set_tmo (set_pc x r PHandler) r, OTimeout p [0%nat])
+  | _ => None
+  end.
+
+(* the wait site at which rank r stands, if any (cf. wait_sites model_skeleton) *)
+Definition site_of (r : nat) (p : pc) : option (BarrierRole * BarrierPhase) :=
+  match p with
+  | PArrive => if Nat.eqb r 0 then Some (RLeader, PhArrive) else None
+  | PDepart => if Nat.eqb r 0 then None else Some (RPeer, PhDepart)
+  | _ => None
+  end.
+
+Inductive kind := KStep | KTimeout.
+
+Definition iact (k : kind) (st : store) (x : inst) (r : nat) : option (store * inst * op) :=
+  match k with KStep => istep st x r | KTimeout => itimeout st x r end.
 
 (* ------------------------------------------------------------------ a job: store + history of instances *)
 Record gstate := { g_store : store; g_insts : list inst }.
@@ -160,16 +242,23 @@ Fixpoint upd {A} (l : list A) (n : nat) (x : A) : list A :=
   | h :: t, S n' => h :: upd t n' x
   end.
 
-(* a scheduler choice: (instance index, rank) *)
-Definition choice := (nat * nat)%type.
+(* a scheduler choice: (instance index, rank, normal step | timeout) *)
+Definition choice := (nat * nat * kind)%type.
+Definition c_inst (c : choice) : nat := fst (fst c).
+Definition c_rank (c : choice) : nat := snd (fst c).
+Definition c_kind (c : choice) : kind := snd c.
+Definition is_timeout (c : choice) : bool := match c_kind c with KTimeout => true | KStep => false end.
+
+(* a schedule without timeouts, written as (instance, rank) pairs *)
+Definition steps (l : list (nat * nat)) : list choice := map (fun c => (c, KStep)) l.
 
 Definition gstep (s : gstate) (c : choice) : gstate * option op :=
-  match nth_error (g_insts s) (fst c) with
+  match nth_error (g_insts s) (c_inst c) with
   | None => (s, None)
   | Some x =>
-      match istep (g_store s) x (snd c) with
+      match iact (c_kind c) (g_store s) x (c_rank c) with
       | None => (s, None)
-      | Some (st', x', o) => ({| g_store := st'; g_insts := upd (g_insts s) (fst c) x' |}, Some o)
+      | Some (st', x', o) => ({| g_store := st'; g_insts := upd (g_insts s) (c_inst c) x' |}, Some o)
       end
   end.
 
@@ -180,39 +269,52 @@ Fixpoint grun (s : gstate) (sch : list choice) : gstate :=
   end.
 
 (* specification of one snapshot in a history: prefix id, world size, fault plan *)
-Record spec := { sp_prefix : Z; sp_W : nat; sp_iofail : list nat; sp_metafail : bool }.
+Record spec := { sp_prefix : Z; sp_W : nat; sp_iofail : list nat; sp_metafail : bool; sp_absent : list nat }.
 
 Definition mk_inst (sp : spec) : inst :=
   {| i_prefix := sp_prefix sp; i_W := sp_W sp; i_iofail := sp_iofail sp; i_metafail := sp_metafail sp;
-     i_pcs := fun _ => PIo; i_meta := false; i_iodone := fun _ => false |}.
+     i_absent := sp_absent sp;
+     i_pcs := fun r => if existsb (Nat.eqb r) (sp_absent sp) then PAbsent else PIo;
+     i_meta := false; i_iodone := fun _ => false; i_tmo := fun _ => false |}.
 
 Definition ginit (st0 : store) (h : list spec) : gstate :=
   {| g_store := st0; g_insts := map mk_inst h |}.
 
+(* the background thread has finished: _complete_snapshot returned *)
 Definition terminated (p : pc) : bool := match p with PDone | PRaised => true | _ => false end.
+(* a background thread exists and has not finished *)
+Definition live (p : pc) : bool := match p with PDone | PRaised | PAbsent => false | _ => true end.
 
 Definition enabled (s : gstate) (c : choice) : bool :=
   match snd (gstep s c) with Some _ => true | None => false end.
 
-(* no rank of instance i can take a step *)
+(* no rank of instance i can take a normal step *)
 Definition quiescent_inst (s : gstate) (i : nat) : Prop :=
-  forall r, snd (gstep s (i, r)) = None.
+  forall r, snd (gstep s (i, r, KStep)) = None.
 
-(* every (instance, rank) pair once: one round of a round-robin scheduler *)
+(* every (instance, rank) pair once: one round of a round-robin scheduler (normal steps only) *)
 Fixpoint choices_from (i : nat) (ws : list nat) : list choice :=
   match ws with
   | [] => []
-  | w :: t => map (pair i) (seq 0 w) ++ choices_from (S i) t
+  | w :: t => map (fun r => (i, r, KStep)) (seq 0 w) ++ choices_from (S i) t
   end.
 
 Definition all_choices (s : gstate) : list choice := choices_from 0 (map i_W (g_insts s)).
+
+(* one round of a round-robin scheduler whose timeouts are fair: every (instance, rank) pair gets one normal step
+   and then, if it is (still or again) about to wait, its timeout *)
+Definition with_timeouts (l : list choice) : list choice :=
+  flat_map (fun c => [c; (fst c, KTimeout)]) l.
+
+Definition all_choices_t (s : gstate) : list choice := with_timeouts (all_choices s).
 
 Fixpoint rounds_of (l : list choice) (n : nat) : list choice :=
   match n with O => [] | S n' => l ++ rounds_of l n' end.
 
 Definition rounds (s : gstate) (n : nat) : list choice := rounds_of (all_choices s) n.
+Definition rounds_t (s : gstate) (n : nat) : list choice := rounds_of (all_choices_t s) n.
 
-(* measure: an upper bound on the number of steps a rank can still take *)
+(* measure: an upper bound on the number of steps (normal or timeout) a rank can still take *)
 Definition pc_measure (W : nat) (p : pc) : nat :=
   match p with
   | PIo => 7 + W
@@ -223,7 +325,7 @@ Definition pc_measure (W : nat) (p : pc) : nat :=
   | PDepartGet => 2
   | PErrReport => 2
   | PHandler => 1
-  | PDone | PRaised => 0
+  | PDone | PRaised | PAbsent => 0
   end%nat.
 
 Definition inst_measure (x : inst) : nat :=
@@ -243,49 +345,58 @@ Definition obs_op (o : option op) : val :=
   | Some (OWait p rs) => VL [VZ 3; VZ p; VL (map vnat rs)]
   | Some (OGet p r v) => VL [VZ 4; VZ p; vnat r; vvalue v]
   | Some (OMeta ok) => VL [VZ 5; vbool ok]
+  | Some (OTimeout p rs) => VL [VZ 6; VZ p; VL (map vnat rs)]
   end.
 
-Definition obs_outcome (p : pc) : val :=
-  VZ (match p with PDone => 0 | PRaised => 1 | _ => 2 end).
+(* 0 Done / 1 Raised / 2 unfinished / 3 absent *)
+Definition pc_code (p : pc) : Z := match p with PDone => 0 | PRaised => 1 | PAbsent => 3 | _ => 2 end.
+Definition obs_outcome (p : pc) : val := VZ (pc_code p).
 
 Definition obs_inst (x : inst) : val :=
   VL [VL (map (fun r => obs_outcome (i_pcs x r)) (seq 0 (i_W x)));
       vbool (i_meta x);
-      VL (map (fun r => vbool (i_iodone x r)) (seq 0 (i_W x)))].
+      VL (map (fun r => vbool (i_iodone x r)) (seq 0 (i_W x)));
+      VL (map (fun r => vbool (i_tmo x r)) (seq 0 (i_W x)))].
 
-(* ranks of instance i that can take a step *)
-Definition enabled_ranks (s : gstate) (i : nat) : list nat :=
+(* ranks of instance i that can take a step of kind k *)
+Definition enabled_ranks (s : gstate) (i : nat) (k : kind) : list nat :=
   match nth_error (g_insts s) i with
   | None => []
-  | Some x => filter (fun r => enabled s (i, r)) (seq 0 (i_W x))
+  | Some x => filter (fun r => enabled s (i, r, k)) (seq 0 (i_W x))
   end.
 
 Fixpoint obs_steps (s : gstate) (sch : list choice) : list val * gstate :=
   match sch with
   | [] => ([], s)
   | c :: sch' =>
-      let en := enabled_ranks s (fst c) in
+      let en := enabled_ranks s (c_inst c) KStep in
+      let ent := enabled_ranks s (c_inst c) KTimeout in
       let '(s', o) := gstep s c in
       let '(l, sf) := obs_steps s' sch' in
-      (VL [obs_op o; VL (map vnat en)] :: l, sf)
+      (VL [obs_op o; VL (map vnat en); VL (map vnat ent)] :: l, sf)
   end.
 
-Definition BarrierSpecT := (Z * nat * list nat * bool)%type.
+Definition BarrierSpecT := (Z * nat * list nat * bool * list nat)%type.
 Definition spec_of (t : BarrierSpecT) : spec :=
-  let '(p, w, f, m) := t in {| sp_prefix := p; sp_W := w; sp_iofail := f; sp_metafail := m |}.
+  let '(p, w, f, m, a) := t in {| sp_prefix := p; sp_W := w; sp_iofail := f; sp_metafail := m; sp_absent := a |}.
 
-(* input: history (prefix id, world size, io-failing ranks, metadata write fails) and a schedule;
-   output: per step [operation; ranks of that instance enabled before the step], then per instance
-   [outcomes per rank (0 Done / 1 Raised / 2 unfinished); metadata written; io done per rank] *)
-Definition obs_barrier (x : list BarrierSpecT * list choice) : val :=
+(* a schedule entry as the harness writes it: (instance, rank, is-timeout) *)
+Definition BarrierChoiceT := (nat * nat * bool)%type.
+Definition choice_of (t : BarrierChoiceT) : choice :=
+  let '(i, r, b) := t in (i, r, if b then KTimeout else KStep).
+
+(* input: history (prefix id, world size, io-failing ranks, metadata write fails, absent ranks) and a schedule;
+   output: per step [operation; ranks of that instance whose normal step is enabled before the step; ranks of that
+   instance whose timeout is enabled before the step], then per instance
+   [outcomes per rank (0 Done / 1 Raised / 2 unfinished / 3 absent); metadata written; io done per rank;
+    timed out per rank] *)
+Definition obs_barrier (x : list BarrierSpecT * list BarrierChoiceT) : val :=
   let s0 := ginit [] (map spec_of (fst x)) in
-  let '(steps, sf) := obs_steps s0 (snd x) in
+  let '(steps, sf) := obs_steps s0 (map choice_of (snd x)) in
   VL [VL steps; VL (map obs_inst (g_insts sf))].
 
 (* ------------------------------------------------------------------ executable readings of a job state
    (used by the vm_compute witnesses and examples in props/C13.v) *)
-Definition pc_code (p : pc) : Z := match p with PDone => 0 | PRaised => 1 | _ => 2 end.
-
 Definition BarrierOutcomes (s : gstate) (i : nat) : list Z :=
   match nth_error (g_insts s) i with
   | Some x => map (fun r => pc_code (i_pcs x r)) (seq 0 (i_W x))
@@ -295,6 +406,16 @@ Definition BarrierMeta (s : gstate) (i : nat) : bool :=
   match nth_error (g_insts s) i with Some x => i_meta x | None => false end.
 Definition BarrierIoDone (s : gstate) (i : nat) : list bool :=
   match nth_error (g_insts s) i with Some x => map (i_iodone x) (seq 0 (i_W x)) | None => [] end.
+Definition BarrierTimedOut (s : gstate) (i : nat) : list bool :=
+  match nth_error (g_insts s) i with Some x => map (i_tmo x) (seq 0 (i_W x)) | None => [] end.
+Definition BarrierKeys (s : gstate) (i : nat) : list (option value) :=
+  match nth_error (g_insts s) i with
+  | Some x => map (fun r => st_get (g_store s) (kz x r)) (seq 0 (i_W x))
+  | None => []
+  end.
 
+(* ------------------------------------------------------------------ causes of errors (static plan / history) *)
 Definition no_fault (x : inst) : Prop :=
   (forall r, (r < i_W x)%nat -> iofails x r = false) /\ i_metafail x = false.
+Definition no_absent (x : inst) : Prop := forall r, (r < i_W x)%nat -> absent x r = false.
+Definition no_timeout (x : inst) : Prop := forall r, (r < i_W x)%nat -> i_tmo x r = false.
